@@ -294,7 +294,7 @@ contract(
 
 # ---- VariableSizedTiles ----------------------------------------------------------------------------------------------------
 
-OFFS = SeqOf(Int(), "tuple", min_len=1)  # int32 offsets array of one axis: 0, n1, n1+n2, ...
+OFFS = SeqOf(Int(), "array", min_len=1)  # int32 offsets array of one axis: 0, n1, n1+n2, ...
 
 
 def VTILES():
